@@ -45,14 +45,16 @@ Definition mlsx_facts (st : option stats) (kind : Z) : list (text * text) :=
 Definition build_mlsx_string (st : option stats) (kind : Z) (name : text) : text :=
   flat_map (fun kv => fst kv ++ [EQ] ++ snd kv ++ [SEMI]) (mlsx_facts st kind) ++ [SP] ++ name.
 
-(* Client.parse_mlsx_line -> (name, entry) *)
-Definition parse_mlsx_line (s : text) : text * list (text * text) :=
+(* Client.parse_mlsx_line -> (name, entry); ValueError when the line has no SP or nothing after it
+   (since the fix "listing lines without a name or without a type are reported as ValueError") *)
+Definition parse_mlsx_line (s : text) : res (text * list (text * text)) :=
   let line := rstrip s in
-  let '(facts_found, _, name) := partition SP line in
+  let '(facts_found, sep, name) := partition SP line in
+  if negb sep || (match name with [] => true | _ => false end) then Err E_VALUE else
   let entry :=
     fold_left (fun e fact => let '(key, _, value) := partition EQ fact in dict_set (lower key) value e)
               (split_on SEMI (removelast facts_found)) [] in
-  (name, entry).
+  Ok (name, entry).
 
 (* ---- stat.filemode ---- *)
 Definition filetype_char (mode : Z) : Z :=
@@ -100,20 +102,22 @@ Definition parse_rw (s : text) : option Z :=
 
 Definition key_or_err (o : option Z) : res Z := match o with Some v => Ok v | None => Err E_KEY end.
 
-(* s[i] compared with the special letter, 'x', '-' *)
-Definition xbit (c : option Z) (special : Z) (vs vx : Z) : res Z :=
+(* s[i] compared with the special letter ('s'/'t': special bit + execute), 'x', the upper-case
+   letter ('S'/'T': special bit without execute — accepted since the F13b fix), '-' *)
+Definition xbit (c : option Z) (special upper : Z) (vs vx vu : Z) : res Z :=
   match c with
   | None => Err E_INDEX
-  | Some c => if c =? special then Ok vs else if c =? 120 then Ok vx else if c =? 45 then Ok 0 else Err E_VALUE
+  | Some c => if c =? special then Ok vs else if c =? 120 then Ok vx else if c =? upper then Ok vu
+              else if c =? 45 then Ok 0 else Err E_VALUE
   end.
 
 Definition parse_unix_mode (s : text) : res Z :=
   bind (key_or_err (parse_rw (slice 0 2 s))) (fun u =>
   bind (key_or_err (parse_rw (slice 3 5 s))) (fun g =>
   bind (key_or_err (parse_rw (slice 6 8 s))) (fun o =>
-  bind (xbit (char_at 2 s) 115 2112 64) (fun xu =>      (* 0o4100, 0o0100 *)
-  bind (xbit (char_at 5 s) 115 1032 8) (fun xg =>       (* 0o2010, 0o0010 *)
-  bind (xbit (char_at 8 s) 116 512 1) (fun xo =>        (* 0o1000 (sic, without 0o0001), 0o0001 *)
+  bind (xbit (char_at 2 s) 115 83 2112 64 2048) (fun xu =>   (* 0o4100, 0o0100, 0o4000 *)
+  bind (xbit (char_at 5 s) 115 83 1032 8 1024) (fun xg =>    (* 0o2010, 0o0010, 0o2000 *)
+  bind (xbit (char_at 8 s) 116 84 512 1 512) (fun xo =>      (* 0o1000 (sic, without 0o0001), 0o0001, 0o1000 *)
   Ok (Z.lor (Z.lor (Z.lor (u * 64) (g * 8)) o) (Z.lor (Z.lor xu xg) xo)))))))).
 
 (* ---- Client.parse_list_line_unix ---- *)
@@ -148,6 +152,7 @@ Definition parse_list_line_unix (half two_years : Z) (now : dt) (b : text) : res
       | None => Err E_VALUE
       | Some modify =>
           let s5 := strip (skipn 12 s4) in
+          match s5 with [] => Err E_VALUE | _ =>      (* if not s: raise ValueError("no name column") *)
           if text_eqb ty t_link then
             match rfind_sub ARROW s5 with
             | None => Err E_VALUE
@@ -168,6 +173,7 @@ Definition parse_list_line_unix (half two_years : Z) (now : dt) (b : text) : res
                 end
             end
           else Ok (s5, mklinfo ty mode links owner grp size modify None)
+          end
       end)))))
   end.
 
@@ -186,11 +192,9 @@ Definition list_lines (half off now : Z) (dir : list dentry) : list text :=
                      | None => []
                      end) dir.
 
-(* Client.list(): parse each line, skip "." and ".." *)
 Definition DOT : text := [46].
 Definition DOTDOT : text := [46; 46].
-Definition client_mlsd (lines : list text) : list (text * list (text * text)) :=
-  filter (fun r => negb (text_eqb (fst r) DOT || text_eqb (fst r) DOTDOT)) (map parse_mlsx_line lines).
+(* the client's lister loop is Model/ListingClient.v (client_collect) *)
 
 (* ---------------- harness interface ---------------- *)
 Definition sx_of_res {A} (f : A -> sx) (r : res A) : sx :=
@@ -228,7 +232,7 @@ Definition run_listing (fn : Z) (a : sx) : sx :=
   | 12 => sx_of_text (format_mlsx_time (z 0%nat))
   | 13 => sx_of_option sx_of_dt (strptime (fmt_of (z 0%nat)) (t 1%nat))
   | 20 => sx_of_text (build_mlsx_string (opt_stats_of_sx (nth_sx 0 a)) (z 1%nat) (t 2%nat))
-  | 21 => let '(name, e) := parse_mlsx_line (t 0%nat) in L [sx_of_text name; L (map sx_of_kv e)]
+  | 21 => sx_of_res (fun r => L [sx_of_text (fst r); L (map sx_of_kv (snd r))]) (parse_mlsx_line (t 0%nat))
   | 22 => sx_of_text (build_list_string (z 0%nat) (z 1%nat) (z 2%nat)
                                         (stats_of_sx (nth_sx 3 a)) (t 4%nat))
   | 23 => sx_of_res sx_of_linfo
